@@ -59,7 +59,8 @@ def dev_create(kind, flav, volname=b"Vol", cyl=None, fill=0):
         _, cyl, heads, sect, parts = kind.split(":")
         ps = [tuple(map(int, p.split(","))) for p in parts.split(";")]
         L += ["newdev mem %s %s %s %d" % (cyl, heads, sect, fill),
-              "mkhd %d %s" % (len(ps), " ".join("%d %d %d %s" % (s, l, flav, hexs(volname + bytes([49 + i]))) for i, (s, l) in enumerate(ps)))]
+              "mkhd %d %s" % (len(ps), " ".join("%d %d %d %s" % (s, l, flav[i] if isinstance(flav, (list, tuple)) else flav, hexs(volname + bytes([49 + i])))
+                                                for i, (s, l) in enumerate(ps)))]
     L += ["closedev"]
     return L
 
@@ -145,6 +146,13 @@ class Hist:
         p = self.pick_dir()
         ps = self.path_str(p)
         d = self.dirs[p]
+        if rng.random() < 0.03:
+            # a path that leads through a file (empty files too: their block table looks like an empty hash table): every call must fail
+            files = sorted(v[0] for v in d.values() if v[1] == "file" and not self.any_open(p, v[0]))
+            if files:
+                bad = self.path_str(p + (rng.choice(files),))
+                nm = hexs(rng.choice(self.pool))
+                return [rng.choice(["mkdir %s %s" % (bad, nm), "open 7 %s %s w" % (bad, nm), "lookup %s %s" % (bad, nm), "list %s 0 0" % bad, "rm %s %s" % (bad, nm)])]
         if r < 0.07 and self.use_dirs:          # mkdir (sometimes duplicate)
             nm = self.pick_name(p, existing=False) if rng.random() < 0.8 else self.pick_name(p)
             if nm is None:
